@@ -805,7 +805,7 @@ func runCase(c *Case) (*failure, []string, bool) {
 		case "tx", "batch":
 			if s.Op == "batch" || s.Commit {
 				for _, o := range s.Tx {
-					if o.Op != "get" {
+					if o.Op != "get" && o.Op != "last" {
 						touch(o.K)
 					}
 				}
